@@ -78,6 +78,7 @@ def run(ctx):
         env = {i: S.var("v!" + i) for i in A.inputs()}
         base = S.fn(A, env)
         outs = sorted(A.outputs())
+        check_lists(ctx, props, spec, A, nodes, S, env, base, {"case": cid, "circuit": spec if len(spec["nodes"]) < 25 else None})
         for n in nodes:
             det = {"case": cid, "circuit": spec if len(spec["nodes"]) < 25 else None, "node": n}
             flipped = S.fn(A, env, override={n: lambda v, val: z3.Not(v)})
@@ -213,6 +214,42 @@ def run(ctx):
                         ctx.side("influence-value", infl[s] * (2 ** len(sp_n)) == cnt, "influence:wrong-fraction", f"influence({n!r})[{s!r}] = {infl[s]} but {cnt}/{2 ** len(sp_n)} valuations flip", dict(det, startpoint=s))
                     av, e = call(props.avg_sensitivity, build(spec), n, approx=False)
                     ctx.side("avg_sensitivity", e is None and av is not None and abs(av * (2 ** len(sp_n)) - tot) < 1e-9, "avg_sensitivity:wrong", f"avg_sensitivity({n!r}) = {av!r} ({e!r}), sum of influences = {tot}/{2 ** len(sp_n)}", det)
+
+
+def check_lists(ctx, props, spec, A, nodes, S, env, base, det0):
+    """influence / avg_sensitivity with a LIST of nodes: dict of per-node results, each equal to the single-node definition"""
+    import networkx as nx
+    g = A.digraph()
+    pairs = [nodes[:2], nodes[-2:], [nodes[0], nodes[-1]]] if len(nodes) >= 2 else []
+    for ns in pairs:
+        if len(set(ns)) < 2:
+            continue
+        det = dict(det0, nodes=ns)
+        infl, e = call(props.influence, build(spec), list(ns), approx=False)
+        if e is not None:
+            if name_clash(A, e):
+                ctx.rejected("documented rejection: name overlap with the miter's own node names")
+            else:
+                ctx.side("influence-list-raises", False, f"influence:raises:{type(e).__name__}", f"influence({ns}, approx=False) raised {e!r}", det)
+            continue
+        ok = isinstance(infl, dict) and set(infl) == set(ns)
+        exp_tot = {}
+        if ok:
+            for n in ns:
+                sp_n = sorted(({n} | nx.ancestors(g, n)) & A.inputs())
+                ok = ok and isinstance(infl[n], dict) and set(infl[n]) == set(sp_n)
+                tot = 0
+                for s_ in sp_n:
+                    env_s = dict(env)
+                    env_s[s_] = z3.Not(env[s_])
+                    cnt = count_models(z3.Xor(base[n], S.fn(A, env_s)[n]), [S.vars["v!" + i] for i in sp_n])
+                    tot += cnt / (2 ** len(sp_n))
+                    ok = ok and isinstance(infl[n], dict) and s_ in infl[n] and infl[n][s_] * (2 ** len(sp_n)) == cnt
+                exp_tot[n] = tot
+        ctx.side("influence-list", ok, "influence:list-of-nodes", f"influence({ns}) = {infl!r} differs from the per-node definition", det)
+        av, e = call(props.avg_sensitivity, build(spec), list(ns), approx=False)
+        ctx.side("avg_sensitivity-list", e is None and isinstance(av, dict) and set(av) == set(ns) and all(abs(av[n] - exp_tot.get(n, -1)) < 1e-9 for n in ns), "avg_sensitivity:list-of-nodes",
+                 f"avg_sensitivity({ns}) = {av!r} ({e!r}), expected {exp_tot}", det)
 
 
 def max_sensitivity(A, n, sp_n):
